@@ -160,4 +160,5 @@ void world_reset(const plan_t *p);    /* allocator, fds, clock, libast globals *
 #define SA_UNPOISON(p, n) ((void)0)
 #endif
 
+extern int sim_vsnprintf_fail_at, sim_vsnprintf_calls, sim_vsnprintf_failed;      /* simalloc.c: the vsnprintf() call of the current operation that fails */
 #endif
